@@ -1,13 +1,18 @@
 #!/bin/sh
 # usage: thorough_all.sh <out-log> [budget-seconds]   every claimed check at the thorough tier, one after the other,
-# with a private copy of the simulator binary; evidence and replays go to a scratch directory
+# with private copies of the simulator binaries (default-features build: the budget; self_remove_proposal build: a
+# quarter of it); evidence and replays go to a scratch directory
 out="$1"; b="${2:-600}"
-bin=/tmp/mlsim_thorough.$$
+bin=/tmp/mlsim_thorough.$$; bin2=/tmp/mlsim_sr_thorough.$$
 cp /verif/sim/target/release/mlsim $bin || exit 2
+cp /verif/sim/target/release/mlsim-sr $bin2 || exit 2
 for P in C01 C02 C03 C04 C05 C06 C07 C08 C09 C10 C11 C12 C13 C14 C15 C16 C17 C18 C19; do
   r=$(cd /verif/sim && VERIF_DIR=/tmp/vt_thorough VERIF_BUDGET_S=$b VERIF_SEED=${VERIF_SEED:-20260922} $bin check $P --tier thorough 2>&1)
   rc=$?
-  echo "$P rc=$rc $(echo "$r" | grep -E 'VIOLATION|HARNESS' | head -2 | tr '\n' ' ') $(echo "$r" | grep -E 'signature=' | head -1) $(echo "$r" | grep -oE '[0-9]+ runs in [0-9.]+s')" >> "$out"
+  echo "$P default rc=$rc $(echo "$r" | grep -E 'VIOLATION|HARNESS' | head -2 | tr '\n' ' ') $(echo "$r" | grep -E 'signature=' | head -1) $(echo "$r" | grep -oE '[0-9]+ runs in [0-9.]+s')" >> "$out"
+  r=$(cd /verif/sim && VERIF_SECONDARY=1 VERIF_RUN_FRACTION=4 VERIF_DIR=/tmp/vt_thorough VERIF_BUDGET_S=$((b / 4 + 1)) VERIF_SEED=${VERIF_SEED:-20260922} $bin2 check $P --tier thorough 2>&1)
+  rc=$?
+  echo "$P sr rc=$rc $(echo "$r" | grep -E 'VIOLATION|HARNESS' | head -2 | tr '\n' ' ') $(echo "$r" | grep -E 'signature=' | head -1) $(echo "$r" | grep -oE '[0-9]+ runs in [0-9.]+s')" >> "$out"
 done
-rm -f $bin
+rm -f $bin $bin2
 echo done >> "$out"
